@@ -420,6 +420,11 @@ func (rg *filterIPRequestGenerator) GenerateRequests(ctx context.Context, r *Ran
 			if request, ok = readRequest(ctx, requests); !ok {
 				return
 			}
+			// a request that already carries an error has no destination to filter on
+			if request.Err != nil {
+				writeRequest(ctx, out, request)
+				continue
+			}
 			contains, err := rg.excludeIPs.Contains(request.DstIP)
 			if err != nil {
 				request.Err = err
